@@ -14,6 +14,7 @@ import HkModel.Drive.Lex
 import HkModel.Drive.Crash
 import HkModel.Drive.Pull
 import HkModel.Drive.Conc
+import HkModel.Drive.OpFront
 /-! `hkdriver <mode>`: reads protocol lines on stdin, answers one line per input line. -/
 open Hk
 
@@ -73,6 +74,7 @@ def main (args : List String) : IO UInt32 := do
   | ["publish"] => runPure DrivePublish.processLine
   | ["cfgfmt"] => runPure DriveLex.processLine
   | ["leaseconc"] => runPure DriveConc.processLine
+  | ["opfront"] => runPure DriveOpFront.processLine
   | ["crash"] => runPure DriveCrash.processLine
   | ["pullops"] =>
     let st ← loopPull stdin stdout {}
